@@ -728,6 +728,127 @@ pub fn run(cli: &Cli) {
 }
 
 /// directed probe (debugging aid): replays the history of a failing thorough case step by step
+/// C05 across the ACCOUNT log: two devices make account-level edits while offline (each creates a folder; or one
+/// compacts / re-keys / re-describes a folder and keeps editing it while the other creates a folder), then both sync
+/// in turn several times.  Every secret either device committed must be readable on both devices afterwards.
+pub async fn account_merge_case(backend: &str, seed: u64, variant: &str, rep: &mut Report) -> anyhow::Result<()> {
+    let w = World::new(2, backend).await?;
+    let mut rng = Rng::new(seed ^ 0xACC0);
+    let o = |f: VaultId| AccessOptions { folder: Some(f), ..Default::default() };
+    for k in [0usize, 1, 0, 1] { w.sync(k).await.map_err(|e| anyhow::anyhow!("initial sync: {e}"))?; }
+    let default = { let a = w.devices[0].lock().await; *a.default_folder().await.unwrap().id() };
+    let mut made: Vec<(usize, VaultId, sos_core::SecretId, String)> = vec![];
+    // device 1's side
+    {
+        let mut a = w.devices[1].lock().await;
+        match variant {
+            "create-create" => {
+                let f = *a.create_folder(NewFolderOptions::new("made-on-d1".to_string())).await?.folder.id();
+                for i in 0..rng.range(1, 3) { let (m, s) = mk_secret(&mut rng, &format!("d1-{i}")); let id = a.create_secret(m, s, o(f)).await?.id; made.push((1, f, id, "in the folder device 1 created".into())); }
+            }
+            _ => {
+                let (m, s) = mk_secret(&mut rng, "before"); let id = a.create_secret(m, s, o(default)).await?.id; made.push((1, default, id, "before the account-level edit".into()));
+                match variant {
+                    "compact-create" => { a.compact_folder(&default).await?; }
+                    "password-create" => { let nk: AccessKey = secrecy::SecretString::from(format!("new folder password {seed}")).into(); a.change_folder_password(&default, nk).await?; }
+                    _ => { a.rename_folder(&default, "renamed on d1".into()).await?; }
+                }
+                for i in 0..rng.range(1, 3) { let (m, s) = mk_secret(&mut rng, &format!("after-{i}")); let id = a.create_secret(m, s, o(default)).await?.id; made.push((1, default, id, "after the account-level edit".into())); }
+            }
+        }
+    }
+    // device 0's side: a new folder with a secret
+    {
+        let mut a = w.devices[0].lock().await;
+        let f = *a.create_folder(NewFolderOptions::new("made-on-d0".to_string())).await?.folder.id();
+        let (m, s) = mk_secret(&mut rng, "d0"); let id = a.create_secret(m, s, o(f)).await?.id; made.push((0, f, id, "in the folder device 0 created".into()));
+    }
+    let order: Vec<usize> = if rng.chance(1, 2) { vec![0, 1, 0, 1, 0, 1] } else { vec![1, 0, 1, 0, 1, 0] };
+    let mut script = vec![format!("account-merge {variant} {backend} order={:?}", order)];
+    for k in &order { let r = w.sync(*k).await; script.push(format!("sync d{k} {}", match &r { Ok(x) => x.clone(), Err(e) => format!("ERR {e}") })); }
+    for d in 0..2usize {
+        let a = w.devices[d].lock().await;
+        for (who, f, id, what) in &made {
+            if let Err(e) = a.read_secret(id, Some(f)).await {
+                rep.spec_fail(&format!("c05-secret-lost-after-account-log-merge:{variant}"), json!({"case_seed": seed, "backend": backend, "variant": variant, "made_on": who, "read_on": d, "what": what, "error": e.to_string(), "script": script}),
+                    "a secret committed on one device cannot be read after both devices made account-level edits offline and synced");
+            }
+        }
+    }
+    rep.case(&format!("account-merge:{variant}:{backend}:{seed}"), true);
+    rep.count(&format!("account-merge:{variant}:{backend}"));
+    Ok(())
+}
+
+pub fn run_account_merge(cli: &Cli) {
+    let property = cli.extra.get("property").cloned().unwrap_or("C05".into());
+    let mut rep = Report::new(&property, "amerge", cli.seed, &cli.tier);
+    let rt = tokio::runtime::Builder::new_multi_thread().worker_threads(4).enable_all().build().unwrap();
+    let n: u64 = if cli.tier == "thorough" { 6 } else { 1 };
+    for backend in ["fs", "db"] {
+        for variant in ["create-create", "compact-create", "password-create", "rename-create"] {
+            for k in 0..n {
+                let seed = cli.seed.wrapping_mul(1_000_003).wrapping_add(k);
+                if let Err(e) = rt.block_on(account_merge_case(backend, seed, variant, &mut rep)) {
+                    rep.notes.push(format!("case {backend}/{variant}/{seed} aborted: {e}"));
+                    rep.spec_fail("c05-harness-aborted", json!({"backend": backend, "variant": variant, "case_seed": seed}), &e.to_string());
+                }
+            }
+        }
+    }
+    rep.rule = "two devices and real server storage, both backends x 4 kinds of concurrent account-level edits (each device creates a folder; one device compacts / re-keys / renames a folder and keeps adding secrets while the other creates a folder) x both sync orders, six sync calls; every secret either device committed must be readable on both devices".into();
+    rep.write(&cli.out);
+}
+
+/// both devices create a folder (with a secret) while offline, then sync in turn
+pub fn probe2(cli: &Cli) {
+    let rt = tokio::runtime::Builder::new_multi_thread().worker_threads(2).enable_all().build().unwrap();
+    let backend = cli.extra.get("backend").cloned().unwrap_or("fs".into());
+    rt.block_on(async {
+        let w = World::new(2, &backend).await.unwrap();
+        let mut rng = Rng::new(cli.seed);
+        let o = |f: VaultId| AccessOptions { folder: Some(f), ..Default::default() };
+        for k in [0usize, 1, 0, 1] { let _ = w.sync(k).await; }
+        let mut made: Vec<(usize, VaultId, sos_core::SecretId)> = vec![];
+        let mode = std::env::var("MODE").unwrap_or_default();
+        if mode == "compact" || mode == "password" {
+            // device 1 compacts (or re-keys) the default folder and then adds a secret; device 0 creates a folder
+            let default = { let a = w.devices[0].lock().await; *a.default_folder().await.unwrap().id() };
+            {
+                let mut a = w.devices[1].lock().await;
+                let (m, s) = mk_secret(&mut rng, "before"); a.create_secret(m, s, o(default)).await.unwrap();
+                if mode == "compact" { a.compact_folder(&default).await.unwrap(); }
+                else { let nk: sos_core::crypto::AccessKey = secrecy::SecretString::from("a new folder password 12345".to_string()).into(); a.change_folder_password(&default, nk).await.unwrap(); }
+                let (m, s) = mk_secret(&mut rng, "after"); let id = a.create_secret(m, s, o(default)).await.unwrap().id;
+                made.push((1, default, id));
+            }
+            {
+                let mut a = w.devices[0].lock().await;
+                let f = *a.create_folder(NewFolderOptions::new("folder-of-d0".to_string())).await.unwrap().folder.id();
+                let (m, s) = mk_secret(&mut rng, "in-d0"); let id = a.create_secret(m, s, o(f)).await.unwrap().id;
+                made.push((0, f, id));
+            }
+        } else { for d in 0..2usize {
+            let mut a = w.devices[d].lock().await;
+            let f = *a.create_folder(NewFolderOptions::new(format!("folder-of-d{d}"))).await.unwrap().folder.id();
+            let (m, s) = mk_secret(&mut rng, &format!("in-d{d}"));
+            let id = a.create_secret(m, s, o(f)).await.unwrap().id;
+            made.push((d, f, id));
+        } }
+        for k in [0usize, 1, 0, 1, 0, 1] { let r = w.sync(k).await; println!("sync d{k} {:?}", r); }
+        for d in 0..2usize {
+            let a = w.devices[d].lock().await;
+            let folders: Vec<String> = a.list_folders().await.unwrap().iter().map(|s| s.name().to_string()).collect();
+            println!("device {d} folders {:?}", folders);
+            for (who, f, id) in &made {
+                let r = a.read_secret(id, Some(f)).await;
+                let n = match a.folder_log(f).await { Ok(l) => { use sos_core::events::EventLog; l.read().await.tree().len() as i64 } Err(_) => -1 };
+                println!("  device {d}: secret made on d{who} in folder {} -> {} ; folder log length {}", &f.to_string()[..8], match r { Ok(_) => "readable".to_string(), Err(e) => format!("ERROR {e}") }, n);
+            }
+        }
+    });
+}
+
 pub fn probe(_cli: &Cli) {
     let rt = tokio::runtime::Builder::new_multi_thread().worker_threads(2).enable_all().build().unwrap();
     rt.block_on(async {
